@@ -85,6 +85,14 @@ Section Hist.
       + now rewrite force_obj_states_len.
   Qed.
 
+  Lemma force_chain_state h w c names delete j :
+    let roots := nodup Nat.eq_dec (flat_map (fun n => match dget n c with Some i => [i] | None => [] end) names) in
+    let forced := closure_from (input_edge (w_objs w)) (chain_ids c) roots in
+    valid_ids w forced ->
+    state_of (force_chain wd run h w c names false delete) j =
+    if existsb (Nat.eqb j) forced then {| os_mem := None; os_forced := true |} else state_of w j.
+  Proof. intros roots forced Hv. unfold force_chain. now apply fold_force_state. Qed.
+
   Theorem force_chain_marks_exactly_closure h chain names delete c h' out j :
     nth_error (h_chains h) chain = Some c ->
     let roots := nodup Nat.eq_dec (flat_map (fun n => match dget n c with Some i => [i] | None => [] end) names) in
@@ -94,8 +102,18 @@ Section Hist.
     state_of (h_world h') j =
     if existsb (Nat.eqb j) forced then {| os_mem := None; os_forced := true |} else state_of (h_world h) j.
   Proof.
-    intros Hc roots forced Hv Hs. unfold step in Hs. rewrite Hc in Hs. injection Hs as <- _. simpl.
-    now apply fold_force_state.
+    intros Hc roots forced Hv Hs. unfold step in Hs. rewrite Hc in Hs. injection Hs as <- _. cbn [h_world].
+    now apply (force_chain_state h).
+  Qed.
+
+  Lemma force_chain_runlog h w c names delete :
+    w_runlog (force_chain wd run h w c names false delete) = w_runlog w.
+  Proof.
+    unfold force_chain.
+    generalize (closure_from (input_edge (w_objs w)) (chain_ids c)
+                  (nodup Nat.eq_dec (flat_map (fun n => match dget n c with Some i => [i] | None => [] end) names))).
+    intros l. revert w. induction l as [|i r IH]; intros w; simpl; [reflexivity|].
+    rewrite IH. apply force_obj_runlog.
   Qed.
 
   (* ... where the closure is: a named task, or reachable from one along input -> dependant arcs *)
@@ -106,22 +124,28 @@ Section Hist.
 
   (* ---------- building and inspecting run nothing ---------- *)
   Theorem inspection_runs_nothing h o h' out :
-    (match o with OValue _ _ => False | OForceChain _ _ true _ => False | _ => True end) ->
+    (match o with OValue _ _ => False | OForceChain _ _ true _ => False | OForceMulti _ _ true _ => False | _ => True end) ->
     step H wd run h o = (h', out) -> w_runlog (h_world h') = w_runlog (h_world h).
   Proof.
-    intros Hk Hs. destruct o as [b|bs|c n|c n d|c ns rc d|c n|cf| |sl]; try contradiction; unfold step in Hs.
+    intros Hk Hs. destruct o as [b|bs|c n|c n d|c ns rc d|c n|cs ns rc d|cf| |sl]; try contradiction; unfold step in Hs.
     - destruct (build H wd b (w_objs (h_world h)) []) as [[[rc objs] reg]|e]; injection Hs as <- _; reflexivity.
     - destruct (build_multi H wd bs (w_objs (h_world h)) []) as [[[rcs objs] reg]|e]; injection Hs as <- _; reflexivity.
     - destruct (oid_of h c n); injection Hs as <- _; [apply force_obj_runlog|reflexivity].
     - destruct rc; [contradiction|]. destruct (nth_error (h_chains h) c) as [ch|]; injection Hs as <- _; [|reflexivity].
-      simpl. generalize (closure_from (input_edge (w_objs (h_world h))) (chain_ids ch)
-                           (nodup Nat.eq_dec (flat_map (fun n => match dget n ch with Some i => [i] | None => [] end) ns))).
-      intros l. generalize (h_world h). induction l as [|i r IH]; intros w; simpl; [reflexivity|].
-      rewrite IH. apply force_obj_runlog.
+      cbn [h_world]. apply (force_chain_runlog h).
     - destruct (oid_of h c n) as [id|]; [|injection Hs as <- _; reflexivity].
       destruct (nth_error (w_objs (h_world h)) id) as [ob|]; [|injection Hs as <- _; reflexivity].
       destruct (cls_of (classes_of_world wd) ob) as [tc|]; [|injection Hs as <- _; reflexivity].
       destruct (persisting (c_data tc)); injection Hs as <- _; reflexivity.
+    - destruct rc; [contradiction|].
+      match type of Hs with (let '(_, _) := fold_left ?F cs ?init in _) = _ =>
+        assert (G : forall l wa g, w_runlog (fst (fold_left F l (wa, g))) = w_runlog wa) end.
+      { induction l as [|ci r IH]; intros wa g; cbn [fold_left]; [reflexivity|].
+        destruct g; [|apply IH].
+        destruct (nth_error (h_chains h) ci) as [c0|]; [|apply IH].
+        destruct (forallb (fun n => dhas n c0) ns); rewrite IH; [apply (force_chain_runlog h)|reflexivity]. }
+      match type of Hs with (let '(_, _) := ?F in _) = _ => destruct F as [w' g'] eqn:Ef end.
+      injection Hs as <- _. simpl. specialize (G cs (h_world h) true). rewrite Ef in G. exact G.
     - destruct (nth_error (h_chains h) cf) as [ch|]; [|injection Hs as <- _; reflexivity].
       match type of Hs with (let '(_, _) := fold_left ?V ch ?init in _) = _ =>
         assert (G : forall l wa out, w_runlog (fst (fold_left V l (wa, out))) = w_runlog wa) end.
@@ -185,6 +209,22 @@ Section HistSound.
     - destruct delete; exact Ho.
   Qed.
 
+  Lemma force_chain_inv h w c names rc d : InvW w -> InvW (force_chain wd run h w c names rc d).
+  Proof.
+    intros Hi. unfold force_chain.
+    set (forced := closure_from _ _ _).
+    assert (Hf : forall l w0, InvW w0 -> InvW (fold_left (force_obj wd d) l w0)).
+    { induction l as [|i r IH]; intros w0 Hw; cbn [fold_left]; [exact Hw|]. apply IH. now apply force_obj_inv. }
+    destruct rc; [|now apply Hf].
+    assert (Hr : forall l w0, InvW w0 ->
+               InvW (fold_left (fun wa i => fst (eval (classes_of_world wd) run (depth h) wa i)) l w0)).
+    { induction l as [|i r IH]; intros w0 Hw; cbn [fold_left]; [exact Hw|]. apply IH.
+      destruct (eval (classes_of_world wd) run (depth h) w0 i) as [w' r'] eqn:Ee. cbn [fst].
+      exact (proj1 (eval_sound (classes_of_world wd) run objs ideal location_determines_denotation
+                               well_founded_inputs (depth h) _ _ _ _ Hw Ee)). }
+    apply Hr. now apply Hf.
+  Qed.
+
   Theorem step_preserves_soundness h o h' out :
     (match o with OBuild _ | OBuildMulti _ | ORestart => False | _ => True end) ->
     InvW (h_world h) -> step H wd run h o = (h', out) ->
@@ -192,7 +232,7 @@ Section HistSound.
     (forall c n v id, o = OValue c n -> oid_of h c n = Some id -> out = ok v -> Den run objs id v).
   Proof.
     pose proof I as nope_marker.
-    intros Hk Hi Hs. destruct o as [b|bs|c n|c n d|c ns rc d|c n|cf| |sl]; try contradiction; unfold step in Hs.
+    intros Hk Hi Hs. destruct o as [b|bs|c n|c n d|c ns rc d|c n|cs ns rc d|cf| |sl]; try contradiction; unfold step in Hs.
     - (* value *)
       destruct (oid_of h c n) as [id|] eqn:Eo; [|injection Hs as <- <-; split; [exact Hi|nope]].
       destruct (eval (classes_of_world wd) run (depth h) (h_world h) id) as [w' [v|e]] eqn:Ee.
@@ -205,18 +245,7 @@ Section HistSound.
         injection Hs as <- <-. split; [exact Hi'|nope].
     - destruct (oid_of h c n); injection Hs as <- <-; (split; [|nope]); [now apply force_obj_inv|exact Hi].
     - destruct (nth_error (h_chains h) c) as [ch|]; injection Hs as <- <-; (split; [|nope]); [|exact Hi].
-      cbn [h_world].
-      set (forced := closure_from _ _ _).
-      assert (Hf : forall l w, InvW w -> InvW (fold_left (force_obj wd d) l w)).
-      { induction l as [|i r IH]; intros w Hw; cbn [fold_left]; [exact Hw|]. apply IH. now apply force_obj_inv. }
-      destruct rc; [|now apply Hf].
-      assert (Hr : forall l w, InvW w ->
-                 InvW (fold_left (fun wa i => fst (eval (classes_of_world wd) run (depth h) wa i)) l w)).
-      { induction l as [|i r IH]; intros w Hw; cbn [fold_left]; [exact Hw|]. apply IH.
-        destruct (eval (classes_of_world wd) run (depth h) w i) as [w' r'] eqn:Ee. cbn [fst].
-        exact (proj1 (eval_sound (classes_of_world wd) run objs ideal location_determines_denotation
-                                 well_founded_inputs (depth h) _ _ _ _ Hw Ee)). }
-      apply Hr. now apply Hf.
+      cbn [h_world]. now apply force_chain_inv.
     - destruct (oid_of h c n) as [id|]; [|injection Hs as <- <-; split; [exact Hi|nope]].
       destruct (nth_error (w_objs (h_world h)) id) as [ob|]; [|injection Hs as <- <-; split; [exact Hi|nope]].
       destruct (cls_of (classes_of_world wd) ob) as [tc|]; [|injection Hs as <- <-; split; [exact Hi|nope]].
@@ -224,6 +253,14 @@ Section HistSound.
       simpl. destruct Hi as (Hm & Hst & Ho).
       destruct (os_mem (state_of (h_world h) id)); repeat split; auto.
       apply (store_sound_mkdirs ideal (h_world h)). exact Hst.
+    - match type of Hs with (let '(_, _) := fold_left ?F cs ?init in _) = _ =>
+        assert (G : forall l wa g, InvW wa -> InvW (fst (fold_left F l (wa, g)))) end.
+      { induction l as [|ci r IH]; intros wa g Hw; cbn [fold_left]; [exact Hw|].
+        destruct g; [|now apply IH].
+        destruct (nth_error (h_chains h) ci) as [c0|]; [|now apply IH].
+        destruct (forallb (fun n => dhas n c0) ns); apply IH; [now apply force_chain_inv|exact Hw]. }
+      match type of Hs with (let '(_, _) := ?F in _) = _ => destruct F as [w' g'] eqn:Ef end.
+      injection Hs as <- <-. split; [|nope]. specialize (G cs (h_world h) true Hi). rewrite Ef in G. exact G.
     - destruct (nth_error (h_chains h) cf) as [ch|]; [|injection Hs as <- <-; split; [exact Hi|nope]].
       match type of Hs with (let '(_, _) := fold_left ?V ch ?init in _) = _ =>
         assert (G : forall l wa out0, InvW wa -> InvW (fst (fold_left V l (wa, out0)))) end.
